@@ -863,10 +863,34 @@ type rangeIter struct {
 func (x *Exec) rangeInit(st *State, fr *Frame, in *ssa.Range) Val {
 	v := x.val(st, fr, in.X)
 	if mv, ok := v.(*MapV); ok {
-		return &OpaqueV{Tag: "mapiter", Data: map[string]Val{"map": mv}}
+		d := map[string]Val{"map": mv}
+		if kt := mv.mapKeySort(x, st, in.X.Type()); kt != "" {
+			// ghost: the set of keys this range statement has produced so far. A Go range over a map produces every
+			// key at most once (entries added during the iteration may or may not be produced), so Next only yields
+			// keys outside the set; contracts read it as visited(m, k).
+			vis := x.e.newObj(st, T{S: fmt.Sprintf("((as const (Array %s Bool)) false)", kt), So: "(Array " + kt + " Bool)"})
+			d["visited"] = IntLit(int64(vis))
+			if x.e.mapVisited == nil {
+				x.e.mapVisited = map[int]int{}
+			}
+			x.e.mapVisited[mv.Obj] = vis
+		}
+		return &OpaqueV{Tag: "mapiter", Data: d}
 	}
 	x.fail("range over %T unsupported at %s", v, x.posStr(in.Pos()))
 	return nil
+}
+
+// mapKeySort: the SMT sort of the keys of a map value held as a term, "" when the map is not reified.
+func (mv *MapV) mapKeySort(x *Exec, st *State, t types.Type) string {
+	cur, ok := st.Heap[mv.Obj].(T)
+	if !ok || !strings.HasPrefix(cur.So, "Map_") {
+		return ""
+	}
+	if mt, ok := t.Underlying().(*types.Map); ok {
+		return x.e.sortOf(mt.Key())
+	}
+	return ""
 }
 
 func (x *Exec) rangeNext(st *State, fr *Frame, in *ssa.Next) Val {
@@ -904,6 +928,16 @@ func (x *Exec) rangeNext(st *State, fr *Frame, in *ssa.Next) Val {
 		ks := x.e.sortOf(kT)
 		kterm := x.e.fresh("mapkey", ks)
 		st.assume(Implies(ok, T{S: fmt.Sprintf("(select (has_%s %s) %s)", so, cur.S, kterm.S), So: SBool}), "range yields present keys")
+		if vo, has := it.Data["visited"]; has {
+			obj := int(mustLit(vo.(T)))
+			if vis, isT := st.Heap[obj].(T); isT {
+				st.assume(Implies(ok, T{S: fmt.Sprintf("(not (select %s %s))", vis.S, kterm.S), So: SBool}), "range yields every key at most once")
+				st.Heap[obj] = T{S: fmt.Sprintf("(ite %s (store %s %s true) %s)", ok.S, vis.S, kterm.S, vis.S), So: vis.So}
+				if st.Written != nil {
+					st.Written[obj] = true
+				}
+			}
+		}
 		kv = x.e.reflect(st, kterm, kT)
 		if !isInvalid(vT) {
 			vs := x.e.sortOf(vT)
